@@ -294,21 +294,28 @@ def procClear (c : Cache) : Option Cache :=
     let c := c.buf.foldl drainItem { c with buf := [], clearQ := rest }
     some { c with lfu := c.lfu.clear, store := c.store.clear, metrics := {}, released := id :: c.released }
 
+/-- the sweep looks at one key of a due bucket: re-check against the store, then release the charge
+and remove the entry -/
+def sweepOne (c : Cache) (now k conflict : Nat) : Cache × Option CB :=
+  match c.store.expiration k with
+  | none => (c, none)
+  | some t =>
+    if !t.isZero && t.isExpired now then
+      let cost := policyCost c.lfu k
+      let c1 := ({ c with lfu := (policyRemove c.lfu k).1 }).met fun m => m.applyEvs (policyRemove c.lfu k).2
+      match (c.store.tryRemove k conflict).2 with
+      | some e => ({ c1 with store := (c.store.tryRemove k conflict).1 }, some (CB.evict k e.conflict e.val cost))
+      | none => (c1, none)
+    else (c, none)
+
 /-- the sweep over the keys of the due buckets, in the order the implementation visited them -/
 def sweepKeys (c : Cache) (now : Nat) : List (Nat × Nat) → List CB → Cache × List CB
   | [], acc => (c, acc)
   | (k, conflict) :: rest, acc =>
-    match c.store.expiration k with
-    | none => sweepKeys c now rest acc
-    | some t =>
-      if !t.isZero && t.isExpired now then
-        let cost := policyCost c.lfu k
-        let (l', evs) := policyRemove c.lfu k
-        let c := ({ c with lfu := l' }).met fun m => m.applyEvs evs
-        match c.store.tryRemove k conflict with
-        | (s', some e) => sweepKeys { c with store := s' } now rest (CB.evict k e.conflict e.val cost :: acc)
-        | (_, none) => sweepKeys c now rest acc
-      else sweepKeys c now rest acc
+    sweepKeys (c.sweepOne now k conflict).1 now rest
+      (match (c.sweepOne now k conflict).2 with
+       | some cb => cb :: acc
+       | none => acc)
 
 /-- the callbacks of a sweep are delivered after all removals -/
 def deliverEvictions (c : Cache) : List CB → Cache
